@@ -189,12 +189,16 @@ extern void h_alloc_arm(long fail_at);
 extern long h_alloc_disarm(void);
 extern int h_alloc_counting;
 extern long h_alloc_fired;
-static long spec_case_allocfault(hctx* h, fcase* fc, long k) {
+/* wb = 1: the fault may also land inside a write_batch call (a page that fills up is finished there, the chunk buffer grows);
+ * the caller carries on with the rest of the history.  What the table is after a failed write_batch is not defined, but a
+ * close that says OK must still have produced a structurally valid file (sizes that chain, counts that add up). */
+static long spec_case_allocfault(hctx* h, fcase* fc, long k, int wb) {
     char path[128]; snprintf(path, sizeof path, "/tmp/verif_fs_%d_f.parquet", (int)getpid());
     fprintf(h->out, "wrspec");
     { FILE* save = h->out; char* mem = NULL; size_t msz = 0; FILE* ms = open_memstream(&mem, &msz);
       h->out = ms; print_case(h, fc); fclose(ms); h->out = save; fputs(mem + 2, h->out); free(mem); }
     fprintf(h->out, " afault=%ld", k);
+    if (wb) fprintf(h->out, " wb=1");
     h_call(h);
     carquet_error_t err; memset(&err, 0, sizeof err);
     carquet_schema_t* sc = carquet_schema_create(&err);
@@ -216,7 +220,9 @@ static long spec_case_allocfault(hctx* h, fcase* fc, long k) {
         int16_t* d = NULL;
         if (s->has_defs) { d = (int16_t*)h_alloc((size_t)(s->nrows ? s->nrows : 1) * 2); for (int r = 0; r < s->nrows; r++) d[r] = s->defs[r]; }
         int16_t* rl = batch_reps(s);
+        h_alloc_counting = wb;
         st[nst++] = (int)carquet_writer_write_batch(w, s->col, v, s->nrows, d, rl);
+        h_alloc_counting = 0;
         free(v); free(d); free(rl);
     }
     h_alloc_counting = 1; st[nst++] = (int)carquet_writer_close(w); h_alloc_counting = 0;
@@ -239,9 +245,12 @@ static void gen_c05alloc(hctx* h) {
         fcase fc;
         for (;;) { gen_case(h, &fc, 1); int has_rg = 0; for (int q = 0; q < fc.nsteps; q++) if (fc.steps[q].kind == 1) has_rg = 1; if (has_rg && !is_ragged(&fc)) break; free_case(&fc); }
         if (i % 2 == 0) fc.page = 64 + (long)h_below(h, 200);      /* several pages per chunk: the chunk buffer grows during the flush */
-        long K = spec_case_allocfault(h, &fc, 0);                  /* count the requests of the fault-free run */
+        long K = spec_case_allocfault(h, &fc, 0, 0);               /* count the requests of the fault-free run */
         long stepk = h->thorough ? 1 : 1 + K / 25;
-        for (long k = 1; k <= K; k += stepk) (void)spec_case_allocfault(h, &fc, k);
+        for (long k = 1; k <= K; k += stepk) (void)spec_case_allocfault(h, &fc, k, 0);
+        K = spec_case_allocfault(h, &fc, 0, 1);
+        stepk = h->thorough ? 1 : 1 + K / 40;
+        for (long k = 1; k <= K; k += stepk) (void)spec_case_allocfault(h, &fc, k, 1);
         free_case(&fc);
     }
 }
@@ -250,7 +259,7 @@ const h_component comp_c05alloc = { "c05alloc", gen_c05alloc, replay_none_fs };
 static int replay_filespec(hctx* h, const h_line* l) {
     if (strcmp(l->op, "wrspec") != 0) return 0;
     fcase fc; if (parse_case(l, &fc)) { fprintf(stderr, "bad wrspec line\n"); return 1; }
-    if (h_in(l, "afault")) (void)spec_case_allocfault(h, &fc, (long)h_ll(h_in(l, "afault")));
+    if (h_in(l, "afault")) (void)spec_case_allocfault(h, &fc, (long)h_ll(h_in(l, "afault")), h_in(l, "wb") != NULL);
     else run_spec_case(h, &fc);
     free_case(&fc); return 1;
 }
